@@ -261,6 +261,8 @@ type c10 struct {
 	taskConns map[string]map[string]bool
 	taskRels  map[string]map[string]bool // CONTROLS relations that existed at some step of a task
 	termSync  map[string]map[uint64]bool // target -> terms for which a re-sync completed (or was not needed)
+	// resyncPush: target -> election ids with which the device accepted a push of the configuration controller
+	resyncPush map[string]map[uint64]bool
 	accepted  map[string]uint64          // highest accepted election id per device generation
 	gen       map[string]int
 }
@@ -307,6 +309,17 @@ func (m *c10) OnCfg(old, new *configapi.Configuration, w WriteRec) {
 	}
 	// a term is usable for new changes once the applied term reached it
 	at := uint64(new.Status.Applied.Mastership.Term)
+	var oat uint64
+	if old != nil {
+		oat = uint64(old.Status.Applied.Mastership.Term)
+	}
+	if at != 0 && at != oat && new.Status.Applied.Index > 0 && !s.Plan.Knobs.Persistent[t] && len(s.Rec.Vals[CfgID(t)+"-applied"]) > 0 && !m.resyncPush[t][at] {
+		// (round 2) the record's word is not taken for it: when the Configuration is declared synchronized in a term,
+		// the device must have accepted at least one push of the configuration controller carrying that term - the
+		// applied values are not empty, so something had to be re-sent. (The first version derived "re-synchronised in
+		// term t" from the record alone and could not see a status written before the pushes.)
+		s.Report("C10", "resync-first", "synchronized-without-push", fmt.Sprintf("%s: the Configuration is recorded as synchronized in term %d (by %s) with applied index %d and %d applied values, but the device accepted no re-synchronisation push with that election id", t, at, w.Task, new.Status.Applied.Index, len(s.Rec.Vals[CfgID(t)+"-applied"])))
+	}
 	if at != 0 {
 		if m.termSync[t] == nil {
 			m.termSync[t] = map[uint64]bool{}
@@ -384,6 +397,10 @@ func (m *c10) OnDevSet(target string, q *DevReq) {
 			}
 		} else if isResyncTask(q.Task) {
 			s.K.Probe("c10-resync-set")
+			if m.resyncPush[target] == nil {
+				m.resyncPush[target] = map[uint64]bool{}
+			}
+			m.resyncPush[target][q.Election] = true
 		}
 	}
 }
@@ -791,7 +808,7 @@ func init() {
 			return p
 		},
 		Arm: func(s *Sys) {
-			m := &c10{s: s, taskTerms: map[string]map[uint64]bool{}, taskConns: map[string]map[string]bool{}, taskRels: map[string]map[string]bool{}, termSync: map[string]map[uint64]bool{},
+			m := &c10{s: s, taskTerms: map[string]map[uint64]bool{}, taskConns: map[string]map[string]bool{}, taskRels: map[string]map[string]bool{}, termSync: map[string]map[uint64]bool{}, resyncPush: map[string]map[uint64]bool{},
 				accepted: map[string]uint64{}, gen: map[string]int{}}
 			s.Mon = append(s.Mon, m)
 			s.OnTaskStart = m.start
